@@ -40,7 +40,10 @@ def edits(mmv, open_enums):
                 out = "zz-not-a-member" if e["type"]["name"] == "string" else max(vals) + 1000
                 yield sn, pn, "enum", out
             if t["kind"] == "stringLiteral":
-                yield sn, pn, "literal", t["value"] + "x"
+                lit = t["value"]
+                for v in dict.fromkeys([lit + "x", lit[:-1], lit[1:], "", lit.upper(), " " + lit]):
+                    if v != lit:
+                        yield sn, pn, "literal", v
 
 
 def run(chk):
